@@ -12,6 +12,7 @@ import (
 	"github.com/ipld/go-ipld-prime"
 	"github.com/ipld/go-ipld-prime/datamodel"
 	mh "github.com/multiformats/go-multihash"
+	"pgregory.net/rapid"
 )
 
 func linkCid(l datamodel.Link) cid.Cid {
@@ -49,6 +50,83 @@ func buildDir(st *Store, es []entrySpec) (cid.Cid, uint64, error) {
 func buildShardedHasher(st *Store, es []entrySpec, fanout int, hasher uint64) (cid.Cid, uint64, error) {
 	l, sz, err := builder.BuildUnixFSShardedDirectory(fanout, hasher, pbEntries(es), st.LinkSystem())
 	return linkCid(l), sz, err
+}
+
+// readerNoise uses an UNRELATED sharded directory through the less travelled accessors (typed Lookup and Iterator, failed
+// lookups, an abandoned iteration) - an earlier history in the same process that later reads must not depend on.
+func readerNoise(salt int) {
+	st := NewStore()
+	var es []entrySpec
+	for i := 0; i < 50+salt%30; i++ {
+		es = append(es, entryFor(fmt.Sprintf("noise-%d-%d", salt, i), salt))
+	}
+	root, _, err := buildSharded(st, es, []int{8, 16, 256, 1024}[salt%4])
+	if err != nil {
+		return
+	}
+	rn, err := loadReified(st.LinkSystem(), root, "unixfs")
+	if err != nil {
+		return
+	}
+	nd, ok := rn.(nativeDir)
+	if !ok {
+		return
+	}
+	for i := 0; i < 3; i++ {
+		nd.Lookup(pbString(es[(salt+i*7)%len(es)].Name))
+		nd.Lookup(pbString(fmt.Sprintf("absent-%d", i)))
+	}
+	_, _ = rn.LookupByString("absent")
+	it := nd.Iterator()
+	for i := 0; i < 5 && !it.Done(); i++ {
+		it.Next()
+	}
+	mi := rn.MapIterator()
+	for i := 0; i < 3 && !mi.Done(); i++ {
+		_, _, _ = mi.Next()
+	}
+}
+
+// failedBuilds runs a few builds that FAIL part-way (a write that is refused at open, while writing - optionally after
+// accepting part of the bytes - or at commit; error values from the fault palette) - used as an intervening history: a
+// build that failed must leave nothing behind that changes what later builds return.
+func failedBuilds(t *rapid.T) string {
+	desc := ""
+	n := rapid.IntRange(1, 3).Draw(t, "failedBuilds")
+	for i := 0; i < n; i++ {
+		bad := NewStore()
+		k := rapid.IntRange(1, 4).Draw(t, "failAt")
+		bad.FaultKind = genFaultKind(t)
+		stage := rapid.SampledFrom([]string{"open", "write", "write-partial", "write-partial", "commit"}).Draw(t, "failStage")
+		switch stage {
+		case "open":
+			bad.FailOpenAt = k
+		case "write":
+			bad.FailWriteAt = k
+		case "write-partial":
+			bad.FailWriteAt = k
+			bad.PartialWrite = true
+		default:
+			bad.FailCommitAt = k
+		}
+		what := rapid.SampledFrom([]string{"file", "sharded", "dir", "symlink"}).Draw(t, "failedWhat")
+		switch what {
+		case "file":
+			_, _, _ = buildFile(bad, lcgBytes(rapid.IntRange(1, 200).Draw(t, "failedLen"), 3, 0), "size-16", 3)
+		case "sharded":
+			var es []entrySpec
+			for j := 0; j < 40; j++ {
+				es = append(es, entryFor(fmt.Sprintf("failed-%d", j), 1))
+			}
+			_, _, _ = buildSharded(bad, es, 8)
+		case "dir":
+			_, _, _ = buildDir(bad, []entrySpec{entryFor("a", 1), entryFor("b", 2)})
+		default:
+			_, _, _ = builder.BuildUnixFSSymlink("some/target", bad.LinkSystem())
+		}
+		desc += fmt.Sprintf("%s@%s#%d ", what, stage, k)
+	}
+	return desc
 }
 
 // otherBuilds runs a few builds with rarely used options (another name-hash function, other fanouts) - used as an
